@@ -280,7 +280,7 @@ func (batch *Batch) readMessage(
 			//   to MaxBytes truncation
 			// - `batch.lastOffset` to ensure that the message format contains
 			//   `lastOffset`
-			if errors.Is(batch.err, io.EOF) && batch.msgs.lengthRemain == 0 && batch.lastOffset != -1 {
+			if errors.Is(batch.err, io.EOF) && batch.msgs.lengthRemain == 0 && batch.lastOffset >= batch.offset {
 				// Log compaction can create batches that end with compacted
 				// records so the normal strategy that increments the "next"
 				// offset as records are read doesn't work as the compacted
@@ -298,6 +298,13 @@ func (batch *Batch) readMessage(
 		// caller can't tell the difference between a batch that was fully
 		// consumed or a batch whose connection is in an error state.
 		batch.err = dontExpectEOF(err)
+	}
+
+	// Move past the record batches that were consumed entirely, including the
+	// offsets compacted away at their end and the empty batches skipped on the
+	// way. The offset never moves backwards.
+	if end := batch.msgs.batchEnd; end > batch.offset {
+		batch.offset = end
 	}
 
 	return
